@@ -25,7 +25,7 @@ theorem Kernel.killD_unsig {k : Kernel} (hc : k.Calm) {pid : Nat} (hs : k.Unsig 
     simp [hr, he]
   unfold Kernel.killD
   rw [if_pos hd, Kernel.tick_calm k hc]
-  unfold Kernel.stOf
+  unfold Kernel.stAt
   rw [Kernel.bump_find, hf]
   simp only [hr]
 
